@@ -15,6 +15,10 @@ for func in names:
     cands = [k for k in C.REGISTRY if k == func or k.endswith('.' + func)]
     for k in cands:
         E = Engine(C.REGISTRY)
+        if '-j' in sys.argv:
+            import multiprocessing as mp
+            from pyvc.forking import ForkCtl
+            E.fork_ctl = ForkCtl(mp.get_context('fork').BoundedSemaphore(16))
         t0 = time.time()
         res = C.verify(E, C.REGISTRY[k], verbose=verbose)
         print('== %s: paths=%d normal=%d exc=%d aborted=%d %.1fs' % (k, res.paths, res.normal, res.exceptional, res.aborted, time.time() - t0))
